@@ -70,9 +70,19 @@ Inductive deco : Type :=
 
 Inductive iftest := TMain | TTrue | TFalse.   (* __name__ == '__main__' | true at import time | false at import time *)
 
+(* what an import statement binds a name to, as far as the analysis of THIS module needs to know it (a resolved-bases
+   oracle: the harness computes it from the model's result for the imported module, which is analysed first):
+   a class with its exception flag and the members it has or inherits, a module with the classes it defines, anything else *)
+Inductive msum := MNonAttr | MAttr (ivar : bool).      (* a function or class | a variable (an instance variable?) *)
+Definition members_t := list (name * msum).
+Inductive impinfo : Type :=
+| IOther
+| IClass (exc : bool) (members : members_t)
+| IModule (classes : list (name * (bool * members_t))).
+
 Inductive stmt : Type :=
 | Def (nm : name) (decos : list deco) (async : bool) (body : list stmt)
-| Class (nm : name) (bases : list name) (body : list stmt)
+| Class (nm : name) (bases : list (list name)) (cdecos : list deco) (body : list stmt)    (* bases: dotted names *)
 | Assign (targets : list target) (r : rhs)
 | AnnAssign (t : target) (ann : name) (r : option rhs)
 | AugAssign (t : target) (r : rhs)
@@ -82,7 +92,7 @@ Inductive stmt : Type :=
 | With (body : list stmt)
 | For (tgt : name) (body orelse : list stmt)
 | While (body orelse : list stmt)
-| Import (names : list name)             (* the local names an import statement binds *)
+| Import (names : list (name * impinfo))  (* the local names an import statement binds, and to what *)
 | Other.                                 (* pass, a call, return ... : binds nothing, has no body *)
 
 (* The first-statement string of a suite (ast.get_docstring / compiler rule, before cleaning) *)
@@ -99,7 +109,8 @@ Definition docstring_of (body : list stmt) : option text :=
    deco  : (0 (dotted)) (1 (dotted))
    stmt  : (0 name (decos) async (body)) (1 name (bases) (body)) (2 (targets) rhs) (3 target ann optrhs)
            (4 target rhs) (5 text) (6 test (body) (orelse)) (7 (body) (handlers) (orelse) (final))
-           (8 (body)) (9 tgt (body) (orelse)) (10 (body) (orelse)) (11 (names)) (12)                *)
+           (8 (body)) (9 tgt (body) (orelse)) (10 (body) (orelse)) (11 ((name info)..)) (12)
+   info  : (0) | (1 exc ((name tag)..)) | (2 ((name exc ((name tag)..))..))      tag: 0 function/class 1 variable 2 instance variable *)
 Fixpoint sexp_depth (s : sexp) : nat :=
   match s with A _ => 1 | L l => S (fold_right (fun x acc => Nat.max (sexp_depth x) acc) 0 l) end.
 
@@ -149,6 +160,16 @@ Definition deco_of_sexp (s : sexp) : deco :=
 Definition iftest_of_Z (z : Z) : iftest :=
   match z with 0%Z => TMain | 1%Z => TTrue | _ => TFalse end.
 
+Definition msum_of_Z (z : Z) : msum := match z with 0%Z => MNonAttr | 2%Z => MAttr true | _ => MAttr false end.
+Definition members_of_sexp (s : sexp) : members_t :=
+  map (fun m => (to_text (nth_s 0 m), msum_of_Z (to_Z (nth_s 1 m)))) (to_list s).
+Definition impinfo_of_sexp (s : sexp) : impinfo :=
+  match to_Z (nth_s 0 s) with
+  | 1%Z => IClass (to_bool (nth_s 1 s)) (members_of_sexp (nth_s 2 s))
+  | 2%Z => IModule (map (fun c => (to_text (nth_s 0 c), (to_bool (nth_s 1 c), members_of_sexp (nth_s 2 c)))) (to_list (nth_s 1 s)))
+  | _ => IOther
+  end.
+
 Fixpoint stmt_of_sexp (fuel : nat) (s : sexp) : stmt :=
   match fuel with
   | O => Other
@@ -156,7 +177,7 @@ Fixpoint stmt_of_sexp (fuel : nat) (s : sexp) : stmt :=
     let body k := map (stmt_of_sexp f) (to_list (nth_s k s)) in
     match to_Z (nth_s 0 s) with
     | 0%Z => Def (to_text (nth_s 1 s)) (map deco_of_sexp (to_list (nth_s 2 s))) (to_bool (nth_s 3 s)) (body 4%nat)
-    | 1%Z => Class (to_text (nth_s 1 s)) (names_of_sexp (nth_s 2 s)) (body 3%nat)
+    | 1%Z => Class (to_text (nth_s 1 s)) (map names_of_sexp (to_list (nth_s 2 s))) (map deco_of_sexp (to_list (nth_s 4 s))) (body 3%nat)
     | 2%Z => Assign (map target_of_sexp (to_list (nth_s 1 s))) (rhs_of_sexp (nth_s 2 s))
     | 3%Z => AnnAssign (target_of_sexp (nth_s 1 s)) (to_text (nth_s 2 s)) (to_option rhs_of_sexp (nth_s 3 s))
     | 4%Z => AugAssign (target_of_sexp (nth_s 1 s)) (rhs_of_sexp (nth_s 2 s))
@@ -166,7 +187,7 @@ Fixpoint stmt_of_sexp (fuel : nat) (s : sexp) : stmt :=
     | 8%Z => With (body 1%nat)
     | 9%Z => For (to_text (nth_s 1 s)) (body 2%nat) (body 3%nat)
     | 10%Z => While (body 1%nat) (body 2%nat)
-    | 11%Z => Import (names_of_sexp (nth_s 1 s))
+    | 11%Z => Import (map (fun p => (to_text (nth_s 0 p), impinfo_of_sexp (nth_s 1 p))) (to_list (nth_s 1 s)))
     | _ => Other
     end
   end.
